@@ -1,7 +1,540 @@
-//! Harnesses over the transplanted replication_fetcher.rs (child module).
+//! Harnesses over the transplanted replication_fetcher.rs (child module: private fields visible).
 use super::*;
+use crate::shim::{advance_clock, set_clock_frozen};
 use crate::util::*;
+use symrt::env;
+use symrt::{assume, check, check_bool, choice, cover, note, SymBool, SymU};
+use xor_name::XorName;
 
 pub fn harnesses() -> Vec<Harness> {
-    vec![]
+    vec![
+        Harness { name: "c08_add_multi", property: "C08", f: c08_add_multi, about: "multi-key advertisement onto an arbitrary small fetcher state: held/in-range/farthest filters, no duplicate fetch, parallel limit, closest first" },
+        Harness { name: "c08_add_single", property: "C08", f: c08_add_single, about: "single-key advertisement (fast path): scheduled iff not held, not already being fetched, not beyond the farthest acceptable distance" },
+        Harness { name: "c08_expiry", property: "C08", f: c08_expiry, about: "timer expiry: expired fetches leave the in-flight set, their holders are reported, the holders' queued entries are dropped" },
+        Harness { name: "c08_complete", property: "C08", f: c08_complete, about: "arrival / early completion removes the in-flight entry (and only what it should)" },
+        Harness { name: "c08_farthest", property: "C08", f: c08_farthest, about: "set_farthest_on_full drops everything farther than the new farthest and never widens" },
+        Harness { name: "c08_progress", property: "C08", f: c08_progress, about: "bounded liveness: an in-range key advertised every round by a responsive holder is fetched within 2 rounds (4 keys, limit 3)" },
+        Harness { name: "c09_divergent_version", property: "C09", f: c09_divergent_version, about: "a key held locally with version T1 and advertised with version T2 != T1 is scheduled or queued" },
+    ]
+}
+
+fn types() -> Vec<RecordType> {
+    vec![RecordType::Chunk, RecordType::NonChunk(XorName([1; 32])), RecordType::NonChunk(XorName([2; 32]))]
+}
+fn tname(t: &RecordType) -> &'static str {
+    match t {
+        RecordType::Chunk => "Chunk",
+        RecordType::Scratchpad => "Scratchpad",
+        RecordType::NonChunk(x) if x.0[0] == 1 => "NonChunk(h1)",
+        RecordType::NonChunk(_) => "NonChunk(h2)",
+    }
+}
+
+struct Fx {
+    f: ReplicationFetcher,
+    ev: crate::shim::tokio::sync::mpsc::Receiver<NetworkEvent>,
+    self_addr: NetworkAddress,
+}
+
+fn new_fetcher() -> Fx {
+    pin_self_reference();
+    let (tx, rx) = crate::shim::tokio::sync::mpsc::channel::<NetworkEvent>(100);
+    Fx { f: ReplicationFetcher::new(self_peer(), tx), ev: rx, self_addr: NetworkAddress::from_peer(self_peer()) }
+}
+
+fn dist(fx: &Fx, k: &RecordKey) -> SymU<256> {
+    fx.self_addr.distance(&NetworkAddress::from_record_key(k)).0
+}
+
+fn future_deadline(name: &str, now: SymU<64>) -> Instant {
+    let d = SymU::<64>::fresh(name);
+    assume(now.slt(d).0);
+    assume(d.slt(SymU::konst(1u64 << 62)).0);
+    Instant(d)
+}
+
+fn drain_events(fx: &mut Fx) -> Vec<NetworkEvent> {
+    env::run_all_tasks();
+    let mut v = vec![];
+    while let Some(e) = fx.ev.try_recv() {
+        v.push(e);
+    }
+    v
+}
+
+fn og_keys(f: &ReplicationFetcher) -> Vec<(RecordKey, RecordType)> {
+    let mut v: Vec<_> = f.on_going_fetches.keys().cloned().collect();
+    v.sort_by_key(|(k, t)| (k.to_vec(), tname(t)));
+    v
+}
+fn pend_keys(f: &ReplicationFetcher) -> Vec<(RecordKey, RecordType, PeerId)> {
+    let mut v: Vec<_> = f.to_be_fetched.keys().cloned().collect();
+    v.sort_by_key(|(k, t, p)| (k.to_vec(), tname(t), p.to_bytes()));
+    v
+}
+
+/// optional range / farthest settings, symbolic
+fn maybe_limits(fx: &mut Fx) -> (Option<SymU<256>>, Option<SymU<256>>) {
+    let range = if choice(2) == 1 {
+        let r = SymU::<256>::fresh("range");
+        fx.f.distance_range = Some(U256(r));
+        Some(r)
+    } else {
+        None
+    };
+    let farthest = if choice(2) == 1 {
+        let d = SymU::<256>::fresh("farthest_acceptable");
+        fx.f.farthest_acceptable_distance = Some(Distance(d));
+        Some(d)
+    } else {
+        None
+    };
+    (range, farthest)
+}
+
+// ------------------------------------------------------------------ add_keys, batch
+
+fn c08_add_multi() {
+    set_clock_frozen(true);
+    let mut fx = new_fetcher();
+    let now = Instant::now().0;
+    let limit = MAX_PARALLEL_FETCH;
+    let ty = types();
+    // pre-state: n_og on-going fetches of keys 10.. (not among the incoming), deadlines in the future
+    let n_og = choice(limit + 1);
+    for i in 0..n_og {
+        let d = future_deadline(&format!("og_deadline{i}"), now);
+        fx.f.on_going_fetches.insert((key(10 + i as u8), RecordType::Chunk), (peer(9), d));
+    }
+    // optionally one incoming key is already on-going (same or different version), or already pending from this holder
+    let holder = peer(1);
+    let n_in = 2 + choice(2);
+    let incoming: Vec<(RecordKey, RecordType)> = (0..n_in).map(|i| (key(i as u8), if i == 1 { ty[1].clone() } else { ty[0].clone() })).collect();
+    let pre = choice(4);
+    match pre {
+        1 if n_og < limit + 1 => {
+            let d = future_deadline("og_same", now);
+            fx.f.on_going_fetches.insert((incoming[0].0.clone(), incoming[0].1.clone()), (peer(2), d));
+        }
+        2 => {
+            let d = future_deadline("og_other_version", now);
+            fx.f.on_going_fetches.insert((incoming[1].0.clone(), ty[2].clone()), (peer(2), d));
+        }
+        3 => {
+            let d = future_deadline("pending_same", now);
+            fx.f.to_be_fetched.insert((incoming[0].0.clone(), incoming[0].1.clone(), holder), d);
+        }
+        _ => {}
+    }
+    let (range, farthest) = maybe_limits(&mut fx);
+    // invariant of reachable states: set_farthest_on_full drops whatever is farther, and add_keys never
+    // admits anything farther, so nothing queued or in flight lies beyond the farthest acceptable distance
+    if let Some(fd) = farthest {
+        for (k, _) in og_keys(&fx.f) {
+            assume(dist(&fx, &k).sle(fd).0);
+        }
+        for (k, _, _) in pend_keys(&fx.f) {
+            assume(dist(&fx, &k).sle(fd).0);
+        }
+    }
+    // local index: nothing, or incoming[0] held with the advertised type
+    let mut local: HashMap<RecordKey, (NetworkAddress, RecordType)> = HashMap::new();
+    let held0 = choice(2) == 1;
+    if held0 {
+        local.insert(incoming[0].0.clone(), (NetworkAddress::from_record_key(&incoming[0].0), incoming[0].1.clone()));
+    }
+    note(format!("n_og={n_og} pre={pre} n_in={n_in} range={} farthest={} held0={held0}", range.is_some(), farthest.is_some()));
+    let og_before = og_keys(&fx.f);
+    let adv: Vec<(NetworkAddress, RecordType)> = incoming.iter().map(|(k, t)| (NetworkAddress::from_record_key(k), t.clone())).collect();
+    let out = fx.f.add_keys(holder, adv, &local);
+    let og_after = og_keys(&fx.f);
+    let new_og: Vec<_> = og_after.iter().filter(|e| !og_before.contains(e)).cloned().collect();
+    // D: what is returned are exactly the newly started fetches (nothing already in flight is started again)
+    check_bool("add_multi:returned_count_equals_new_in_flight", out.len() == new_og.len());
+    for (_h, k) in &out {
+        check_bool("add_multi:returned_key_has_new_in_flight_entry", new_og.iter().any(|(kk, _)| kk == k));
+    }
+    for (k, t) in &new_og {
+        if new_og.len() > 0 {
+            cover("scheduled_some");
+        }
+        // A: never a locally held record
+        check_bool("add_multi:never_schedules_locally_held", !(local.get(k).map(|(_, lt)| lt == t).unwrap_or(false)));
+        // B: entries taken from this multi-key advertisement lie within the responsible range
+        // (an entry queued earlier was filtered against the range in force when it was taken)
+        let from_this_ad = incoming.iter().any(|(ik, _)| ik == k) && !(pre == 3 && *k == incoming[0].0);
+        if let (Some(r), true) = (range, from_this_ad) {
+            check("add_multi:scheduled_within_range", dist(&fx, k).sle(r).0);
+        }
+        // C: nothing farther than the farthest acceptable distance
+        if let Some(fd) = farthest {
+            if incoming.iter().any(|(ik, _)| ik == k) {
+                check("add_multi:scheduled_not_beyond_farthest", dist(&fx, k).sle(fd).0);
+            }
+        }
+    }
+    // queued entries obey the same filters
+    for (k, t, _h) in pend_keys(&fx.f) {
+        if incoming.iter().any(|(ik, _)| *ik == k) && pre != 3 {
+            if let Some(r) = range {
+                check("add_multi:queued_within_range", dist(&fx, &k).sle(r).0);
+            }
+            if let Some(fd) = farthest {
+                check("add_multi:queued_not_beyond_farthest", dist(&fx, &k).sle(fd).0);
+            }
+            check_bool("add_multi:never_queues_locally_held", !(local.get(&k).map(|(_, lt)| *lt == t).unwrap_or(false)));
+        }
+    }
+    // E: batch scheduling never lifts the in-flight set above the limit
+    // (in-flight entries of records that meanwhile are held locally are dropped first)
+    let og_before_live = og_before.iter().filter(|(k, t)| !local.get(k).map(|(_, lt)| lt == t).unwrap_or(false)).count();
+    if og_before_live >= limit {
+        cover("at_limit");
+        check_bool("add_multi:no_batch_scheduling_at_limit", new_og.is_empty());
+    }
+    check_bool("add_multi:in_flight_le_limit", og_after.len() <= limit.max(og_before.len()));
+    // F: closest first -- returned in ascending distance, and no eligible queued entry is closer than a scheduled one
+    for w in out.windows(2) {
+        check("add_multi:returned_ascending_distance", dist(&fx, &w[0].1).sle(dist(&fx, &w[1].1)).0);
+    }
+    for (pk, pt, _) in pend_keys(&fx.f) {
+        let eligible = !og_after.iter().any(|(k, t)| *k == pk && *t == pt);
+        if eligible && og_after.len() < limit {
+            check_bool("add_multi:eligible_entry_left_queued_below_limit", false);
+        }
+        if eligible {
+            for (k, _t) in &new_og {
+                cover("queued_and_scheduled");
+                check("add_multi:scheduled_not_farther_than_queued", dist(&fx, k).sle(dist(&fx, &pk)).0);
+            }
+        }
+    }
+    // an in-range, not held, not yet in-flight key is scheduled or queued
+    for (k, t) in &incoming {
+        let is_held = local.contains_key(k);
+        let in_flight_before = og_before.iter().any(|(kk, tt)| kk == k && tt == t);
+        let mut wanted = SymBool::konst(!is_held);
+        if let Some(r) = range {
+            wanted = wanted.and(dist(&fx, k).sle(r));
+        }
+        if let Some(fd) = farthest {
+            wanted = wanted.and(dist(&fx, k).sle(fd));
+        }
+        let taken = og_after.iter().any(|(kk, tt)| kk == k && tt == t) || fx.f.to_be_fetched.keys().any(|(kk, tt, _)| kk == k && tt == t);
+        if !in_flight_before {
+            check("add_multi:wanted_key_is_scheduled_or_queued", wanted.implies(SymBool::konst(taken)).0);
+        }
+    }
+}
+
+// ------------------------------------------------------------------ add_keys, single key
+
+fn c08_add_single() {
+    set_clock_frozen(true);
+    let mut fx = new_fetcher();
+    let now = Instant::now().0;
+    let limit = MAX_PARALLEL_FETCH;
+    let ty = types();
+    let n_og = choice(limit + 1);
+    for i in 0..n_og {
+        let d = future_deadline(&format!("og_deadline{i}"), now);
+        fx.f.on_going_fetches.insert((key(10 + i as u8), RecordType::Chunk), (peer(9), d));
+    }
+    let k = key(0);
+    let t = ty[1].clone();
+    let pre = choice(3);
+    match pre {
+        1 => {
+            let d = future_deadline("og_same", now);
+            fx.f.on_going_fetches.insert((k.clone(), t.clone()), (peer(2), d));
+        }
+        2 => {
+            let d = future_deadline("og_other_version", now);
+            fx.f.on_going_fetches.insert((k.clone(), ty[2].clone()), (peer(2), d));
+        }
+        _ => {}
+    }
+    let (range, farthest) = maybe_limits(&mut fx);
+    let mut local: HashMap<RecordKey, (NetworkAddress, RecordType)> = HashMap::new();
+    let held = choice(2) == 1;
+    if held {
+        local.insert(k.clone(), (NetworkAddress::from_record_key(&k), t.clone()));
+    }
+    note(format!("n_og={n_og} pre={pre} range={} farthest={} held={held}", range.is_some(), farthest.is_some()));
+    let og_before = og_keys(&fx.f);
+    let out = fx.f.add_keys(peer(1), vec![(NetworkAddress::from_record_key(&k), t.clone())], &local);
+    let og_after = og_keys(&fx.f);
+    let started = out.iter().any(|(_, kk)| *kk == k);
+    let in_flight_before = og_before.iter().any(|(kk, tt)| *kk == k && *tt == t);
+    if started {
+        cover("single_started");
+        check_bool("add_single:never_fetches_locally_held", !held);
+        check_bool("add_single:never_two_fetches_of_same_version", !in_flight_before);
+        if let Some(fd) = farthest {
+            check("add_single:not_beyond_farthest", dist(&fx, &k).sle(fd).0);
+        }
+        check_bool("add_single:in_flight_entry_created", og_after.iter().any(|(kk, tt)| *kk == k && *tt == t));
+    } else {
+        cover("single_not_started");
+        // not started => held, or already in flight, or beyond the farthest acceptable distance
+        let mut excuse = SymBool::konst(held || in_flight_before);
+        if let Some(fd) = farthest {
+            excuse = excuse.or(fd.slt(dist(&fx, &k)));
+        }
+        check("add_single:new_key_is_fetched_at_once", excuse.0);
+    }
+    // only the single-key path may exceed the limit, and by at most this one entry
+    check_bool("add_single:in_flight_grows_by_at_most_one", og_after.len() <= og_before.len() + 1 || og_after.len() <= limit);
+    check_bool("add_single:returned_at_most_new_entries", out.len() == og_after.iter().filter(|e| !og_before.contains(e)).count());
+}
+
+// ------------------------------------------------------------------ expiry
+
+fn c08_expiry() {
+    set_clock_frozen(true);
+    let mut fx = new_fetcher();
+    let ty = types();
+    let t0 = Instant::now().0;
+    // two on-going fetches from holders p1, p2 with arbitrary deadlines; queued entries from p1, p2, p3
+    let n_og = 1 + choice(2);
+    let mut og = vec![];
+    for i in 0..n_og {
+        let d = SymU::<64>::fresh(&format!("og_deadline{i}"));
+        assume(d.slt(SymU::konst(1u64 << 62)).0);
+        let h = peer(1 + i as u8);
+        fx.f.on_going_fetches.insert((key(i as u8), ty[0].clone()), (h, Instant(d)));
+        og.push((key(i as u8), h, d));
+    }
+    let n_pend = 1 + choice(2);
+    let mut pend = vec![];
+    for j in 0..n_pend {
+        let h = peer(1 + choice(3) as u8);
+        let d = future_deadline(&format!("pend_deadline{j}"), t0);
+        // pending deadlines stay in the future even after the advance below (PENDING_TIMEOUT is 900 s)
+        fx.f.to_be_fetched.insert((key(5 + j as u8), ty[0].clone(), h), d);
+        pend.push((key(5 + j as u8), h, d));
+    }
+    // time passes
+    let now = advance_clock();
+    for (_, _, d) in &pend {
+        assume(now.slt(d.0).0);
+    }
+    note(format!("n_og={n_og} n_pend={n_pend} pend_holders={:?}", pend.iter().map(|p| p.1.to_bytes()[7]).collect::<Vec<_>>()));
+    let out = fx.f.next_keys_to_fetch();
+    let events = drain_events(&mut fx);
+    let mut reported: Vec<PeerId> = vec![];
+    for e in &events {
+        if let NetworkEvent::FailedToFetchHolders(hs) = e {
+            reported.extend(hs.iter().cloned());
+        }
+    }
+    let mut any_expired = false;
+    for (k, h, d) in &og {
+        let still = fx.f.on_going_fetches.contains_key(&(k.clone(), ty[0].clone()));
+        // expired (deadline strictly before now) => gone and holder reported; not expired => kept, holder not reported for it
+        let expired = d.slt(now);
+        if still {
+            check("expiry:kept_fetch_is_not_expired", expired.not().0);
+        } else {
+            any_expired = true;
+            check("expiry:removed_fetch_is_expired", d.sle(now).0);
+            check_bool("expiry:timed_out_holder_is_reported", reported.contains(h));
+        }
+        if expired.get() {
+            cover("some_expired");
+            check_bool("expiry:expired_fetch_leaves_in_flight_set", !still);
+            check_bool("expiry:timed_out_holder_is_reported", reported.contains(h));
+        }
+    }
+    for h in &reported {
+        check_bool("expiry:only_timed_out_holders_reported", og.iter().any(|(k, hh, _)| hh == h && !fx.f.on_going_fetches.contains_key(&(k.clone(), ty[0].clone()))));
+    }
+    // queued entries of a reported holder are dropped; others are scheduled or stay queued
+    for (k, h, _d) in &pend {
+        let queued = fx.f.to_be_fetched.contains_key(&(k.clone(), ty[0].clone(), *h));
+        let scheduled = out.iter().any(|(hh, kk)| hh == h && kk == k);
+        if reported.contains(h) {
+            cover("dropped_queue_of_failed_holder");
+            check_bool("expiry:queued_entries_of_timed_out_holder_dropped", !queued && !scheduled);
+        } else {
+            check_bool("expiry:queued_entry_of_live_holder_survives", queued || scheduled);
+        }
+    }
+    if !any_expired {
+        cover("none_expired");
+        check_bool("expiry:no_report_without_timeout", reported.is_empty());
+    }
+}
+
+// ------------------------------------------------------------------ completion
+
+fn c08_complete() {
+    set_clock_frozen(true);
+    let mut fx = new_fetcher();
+    let now = Instant::now().0;
+    let ty = types();
+    // in flight: (k0,T1) (k0,T2) (k1,T1); queued: (k0,T1,p3) (k0,T2,p3) (k2,T0,p3)
+    for (i, (k, t)) in [(key(0), ty[1].clone()), (key(0), ty[2].clone()), (key(1), ty[1].clone())].into_iter().enumerate() {
+        let d = future_deadline(&format!("og_deadline{i}"), now);
+        fx.f.on_going_fetches.insert((k, t), (peer(1), d));
+    }
+    for (i, (k, t)) in [(key(0), ty[1].clone()), (key(0), ty[2].clone()), (key(2), ty[0].clone())].into_iter().enumerate() {
+        let d = future_deadline(&format!("pend_deadline{i}"), now);
+        fx.f.to_be_fetched.insert((k, t, peer(3)), d);
+    }
+    let early = choice(2) == 1;
+    let which = choice(2); // complete (k0,T1) or (k1,T1)
+    let (ck, ct) = if which == 0 { (key(0), ty[1].clone()) } else { (key(1), ty[1].clone()) };
+    note(format!("early={early} completes=({}, {})", key_name(&ck), tname(&ct)));
+    let og_before = og_keys(&fx.f);
+    let out = if early { fx.f.notify_fetch_early_completed(ck.clone(), ct.clone()) } else { fx.f.notify_about_new_put(ck.clone(), ct.clone()) };
+    let og_after = og_keys(&fx.f);
+    cover(if early { "early" } else { "arrival" });
+    // the completed version leaves the in-flight set and the queue
+    check_bool("complete:entry_leaves_in_flight_set", !fx.f.on_going_fetches.contains_key(&(ck.clone(), ct.clone())) || out.iter().any(|(_, k)| *k == ck));
+    check_bool("complete:entry_leaves_queue", !fx.f.to_be_fetched.keys().any(|(k, t, _)| *k == ck && *t == ct) );
+    // unrelated keys are untouched (still in flight)
+    let other = if which == 0 { key(1) } else { key(0) };
+    check_bool("complete:other_key_stays_in_flight", og_after.iter().any(|(k, _)| *k == other));
+    if early {
+        // early completion concerns one version only: the other version of the same key keeps being fetched
+        if which == 0 {
+            check_bool("complete:early_completion_keeps_other_version", fx.f.on_going_fetches.contains_key(&(key(0), ty[2].clone())));
+        }
+    }
+    // whatever gets scheduled next is new in flight, and the limit is respected by batch scheduling
+    for (_h, k) in &out {
+        check_bool("complete:returned_key_is_in_flight", og_after.iter().any(|(kk, _)| kk == k));
+    }
+    check_bool("complete:in_flight_le_limit", og_after.len() <= MAX_PARALLEL_FETCH.max(og_before.len()));
+    // the queued entry of an unrelated key is scheduled or still queued
+    let k2_queued = fx.f.to_be_fetched.keys().any(|(k, _, _)| *k == key(2));
+    let k2_started = og_after.iter().any(|(k, _)| *k == key(2));
+    check_bool("complete:unrelated_queued_entry_not_lost", k2_queued || k2_started);
+}
+
+// ------------------------------------------------------------------ farthest on full
+
+fn c08_farthest() {
+    set_clock_frozen(true);
+    let mut fx = new_fetcher();
+    let now = Instant::now().0;
+    let ty = types();
+    let had_old = choice(2) == 1;
+    let old = SymU::<256>::fresh("old_farthest");
+    if had_old {
+        fx.f.farthest_acceptable_distance = Some(Distance(old));
+    }
+    let d1 = future_deadline("og_deadline", now);
+    fx.f.on_going_fetches.insert((key(0), ty[0].clone()), (peer(1), d1));
+    let d2 = future_deadline("pend_deadline", now);
+    fx.f.to_be_fetched.insert((key(1), ty[0].clone(), peer(1)), d2);
+    let fk = key(2);
+    let new_d = dist(&fx, &fk);
+    note(format!("had_old={had_old}"));
+    fx.f.set_farthest_on_full(Some(fk.clone()));
+    let cur = fx.f.farthest_acceptable_distance.expect("set").0;
+    if had_old {
+        check("farthest:never_widens", cur.sle(old).0);
+        check("farthest:is_min_of_old_and_new", cur.seq(SymU::select(new_d.slt(old), new_d, old)).0);
+    } else {
+        check("farthest:set_to_new", cur.seq(new_d).0);
+    }
+    for (k, still) in [(key(0), fx.f.on_going_fetches.contains_key(&(key(0), ty[0].clone()))), (key(1), fx.f.to_be_fetched.contains_key(&(key(1), ty[0].clone(), peer(1))))] {
+        let d = dist(&fx, &k);
+        if still {
+            cover("kept");
+            // kept => not farther than the farthest now in force (when the setting changed)
+            if !had_old || new_d.slt(old).get() {
+                check("farthest:kept_entry_not_beyond_farthest", d.sle(cur).0);
+            }
+        } else {
+            cover("dropped");
+            check("farthest:dropped_entry_is_beyond_farthest", cur.slt(d).0);
+        }
+    }
+}
+
+// ------------------------------------------------------------------ bounded progress
+
+fn c08_progress() {
+    set_clock_frozen(true);
+    let mut fx = new_fetcher();
+    let ty = types();
+    let _ = Instant::now();
+    let holder = peer(1);
+    let n = MAX_PARALLEL_FETCH + 1;
+    let keys: Vec<RecordKey> = (0..n).map(|i| key(i as u8)).collect();
+    let mut local: HashMap<RecordKey, (NetworkAddress, RecordType)> = HashMap::new();
+    let has_range = choice(2) == 1;
+    let range = SymU::<256>::fresh("range");
+    if has_range {
+        fx.f.distance_range = Some(U256(range));
+        // the key whose progress is claimed is in range
+        assume(dist(&fx, &keys[0]).sle(range).0);
+    }
+    let target = keys[0].clone();
+    let mut fetched_target = false;
+    for round in 0..2 {
+        // the holder advertises everything it has that we do not hold yet
+        let adv: Vec<(NetworkAddress, RecordType)> = keys.iter().filter(|k| !local.contains_key(*k)).map(|k| (NetworkAddress::from_record_key(k), ty[0].clone())).collect();
+        if adv.len() < 2 {
+            break;
+        }
+        let out = fx.f.add_keys(holder, adv, &local);
+        note(format!("round {round}: scheduled {:?}", out.iter().map(|(_, k)| key_name(k)).collect::<Vec<_>>()));
+        let mut batch = out;
+        // responsive holder: every started fetch completes before its timeout; completions may start further fetches
+        let mut guard = 0;
+        while let Some((_h, k)) = batch.pop() {
+            guard += 1;
+            assert!(guard < 20);
+            if k == target {
+                fetched_target = true;
+            }
+            // a little time passes, less than the fetch timeout
+            let before = Instant::now().0;
+            let t = advance_clock();
+            assume(t.slt(before.wrapping_add(SymU::konst(FETCH_TIMEOUT.as_nanos() as u64))).0);
+            local.insert(k.clone(), (NetworkAddress::from_record_key(&k), ty[0].clone()));
+            let more = fx.f.notify_about_new_put(k.clone(), ty[0].clone());
+            batch.extend(more);
+        }
+        if fetched_target {
+            break;
+        }
+    }
+    cover("done");
+    check_bool("progress:in_range_advertised_key_fetched_within_2_rounds", fetched_target);
+}
+
+// ------------------------------------------------------------------ C09 (c)
+
+fn c09_divergent_version() {
+    set_clock_frozen(true);
+    let mut fx = new_fetcher();
+    let _ = Instant::now();
+    let ty = types();
+    let k = key(0);
+    let held_t = ty[1].clone();
+    let adv_t = ty[2].clone();
+    let mut local: HashMap<RecordKey, (NetworkAddress, RecordType)> = HashMap::new();
+    local.insert(k.clone(), (NetworkAddress::from_record_key(&k), held_t.clone()));
+    let multi = choice(2) == 1;
+    let mut adv = vec![(NetworkAddress::from_record_key(&k), adv_t.clone())];
+    if multi {
+        adv.push((NetworkAddress::from_record_key(&key(1)), ty[0].clone()));
+    }
+    note(format!("held {} as {}, advertised as {} (multi={multi})", key_name(&k), tname(&held_t), tname(&adv_t)));
+    let out = fx.f.add_keys(peer(1), adv, &local);
+    let taken = out.iter().any(|(_, kk)| *kk == k) || fx.f.to_be_fetched.keys().any(|(kk, tt, _)| *kk == k && *tt == adv_t) || fx.f.on_going_fetches.contains_key(&(k.clone(), adv_t.clone()));
+    cover("ran");
+    check_bool("divergent:advertised_other_version_of_held_key_is_scheduled_or_queued[held_key_skipped_regardless_of_version]", taken);
+}
+
+impl ReplicationFetcher {
+    /// harness accessor: nothing queued and nothing in flight
+    pub(crate) fn harness_is_idle(&self) -> bool {
+        self.to_be_fetched.is_empty() && self.on_going_fetches.is_empty()
+    }
 }
